@@ -8,7 +8,7 @@ import (
 	"strings"
 )
 
-var keyAtoms = []string{"a", "b", "/", "//", "/./", "/../", "|", "%2F", "%7C", "?", "&", "=", ";", "c", "/%2e/", "%2E", "/%2e%2e/", "%2f"}
+var keyAtoms = []string{"a", "b", "/", "//", "/./", "/../", "|", "%2F", "%7C", "?", "&", "=", ";", "c", "/%2e/", "%2E", "/%2e%2e/", "%2f", "%252F", "%2541", "%25"}
 
 func genTarget(r *rand.Rand, n int) string {
 	var b strings.Builder
@@ -30,7 +30,18 @@ func genTarget(r *rand.Rand, n int) string {
 // mutate returns a target related to t by one small edit, and the relation's name.
 func mutateTarget(r *rand.Rand, t string) (string, string) {
 	path, query, hasQ := strings.Cut(t, "?")
-	switch r.IntN(12) {
+	switch r.IntN(13) {
+	case 11: // an escape escaped once more: "%2F" and "%252F" are different resources
+		if i := strings.IndexByte(path, '%'); i >= 0 {
+			return joinTarget(path[:i]+"%25"+path[i+1:], query, hasQ), "escaped-percent"
+		}
+		if i := strings.LastIndexByte(path, '/'); i >= 0 {
+			a, b := path[:i]+"%2F"+path[i+1:], path[:i]+"%252F"+path[i+1:]
+			if r.IntN(2) == 0 {
+				return joinTarget(a, query, hasQ), "encoded-slash"
+			}
+			return joinTarget(b, query, hasQ), "escaped-percent"
+		}
 	case 0: // trailing slash toggled
 		if strings.HasSuffix(path, "/") && len(path) > 1 {
 			path = path[:len(path)-1]
